@@ -184,11 +184,13 @@ def job_grammar(job):
 
 
 POOL = {4: [b"192.168.1.5,AA:BB,AirTouch4,4001", b"10.0.0.9,CC:DD,AirTouch4,4002", b"192.168.1.5,AA:BB,AirTouch4,4001",
-            b"HF-A11ASSISTHREAD", b"192.168.1.5,AirTouch4", b"1.2.3.4,s,AirTouch5,id,Name"],
+            b"HF-A11ASSISTHREAD", b"192.168.1.5,AirTouch4", b"1.2.3.4,s,AirTouch5,id,Name",
+            # the right marker and number of parts, but bytes that are not text at all
+            b"192.168.1.5,\xff\xfe,AirTouch4,\xc3\x28"],
         5: [b"192.168.1.5,C1,AirTouch5,5001,Home, sweet, home", b"10.0.0.9,C2,AirTouch5,5002,Other", b"192.168.1.5,C1,AirTouch5,5001,Home, sweet, home",
             b"::REQUEST-POLYAIRE-AIRTOUCH-DEVICE-INFO:;", b"192.168.1.5,C1,AirTouch5,5001", b"1.2.3.4,s,AirTouch4,id",
             # the same console under another name (renamed between two answers): a different vendor-format datagram
-            b"192.168.1.5,C1,AirTouch5,5001,Renamed"]}
+            b"192.168.1.5,C1,AirTouch5,5001,Renamed", b"192.168.1.5,\xff\xfe,AirTouch5,5001,\xc3\x28"]}
 CORNERS = [0.0, EPS, 0.25, 0.5 - EPS, 0.5, 0.5 + EPS, 1.0 - EPS, 1.0, 1.0 + EPS, 1.5 - EPS, 1.5, 2.0]
 
 
